@@ -197,6 +197,8 @@ def run_object(case, all_sync):
     p, write, finish, ctl, cleanup = make_peer(case['kind'], clk, encoding)
     if case.get('objW') is not None:
         p.searchwindowsize = case['objW'] or None
+    if case.get('maxread'):
+        p.maxread = case['maxread']          # small reads: a blocking call leaves most of a burst in the kernel for whoever reads next
     t = 0.0
     sched = []
     for a in case['arrivals']:
@@ -341,6 +343,34 @@ def near_tie(case, rec, op):
         if abs(t - deadline) < 2e-3:
             return True
     return False
+
+
+def conservation(case, a):
+    """C01 on a mixed history: what the calls handed back, in call order, followed by what is pending, is a prefix of what the child wrote -
+    nothing lost, doubled or out of order, whoever (a blocking read, the event loop) took it from the descriptor"""
+    stream = ''.join(x[2] for x in case['arrivals'] if x[1] == 'w')
+    handed = ''
+    recs = a['recs']
+    for r in recs:
+        if r['out'].startswith('idx'):
+            if r['after'] == 'TIMEOUT':
+                continue
+            handed += (r['before'] or '') + ('' if r['after'] == 'EOF' else (r['after'] or ''))
+        elif r['out'] == 'EOF':
+            handed += r['before'] or ''
+    if not recs or any(r['out'].startswith(('EXC', 'BLOCKED', 'CANCELLED')) for r in recs):
+        return None
+    last = recs[-1]
+    if last['out'] == 'EOF' or last['after'] == 'EOF':
+        pending = ''
+    elif last['out'] == 'TIMEOUT' or last['after'] == 'TIMEOUT':
+        pending = last['before'] or ''        # (the search buffer may have been trimmed; `before` is all of the pending text)
+    else:
+        pending = last['buffer'] or ''
+    total = handed + pending
+    if not stream.startswith(total):
+        return (len(recs) - 1, 'conservation (handed back + pending)', total[:60], stream[:60])
+    return None
 
 
 def compare_twin(case, a, b):
@@ -500,7 +530,10 @@ def rand_case(rng, allow_t0=False):
         arrivals.append([dt, 'w', text])
     if rng.random() < 0.5:
         arrivals.append([rng.choice([0.0, 0.1, 0.3, 0.6]), 'c'])
-    return dict(kind=kind, arrivals=arrivals, ops=ops, **({'objW': objW} if objW is not None else {}))
+    # (only without search windows: under a window the outcome depends on how the stream is cut into reads - by design, C03 - and the event
+    # loop does not cut it the way a blocking read of maxread bytes does)
+    extra = {'maxread': rng.choice([1, 2, 3, 7])} if (not windows and rng.random() < 0.3) else {}
+    return dict(kind=kind, arrivals=arrivals, ops=ops, **({'objW': objW} if objW is not None else {}), **extra)
 
 
 def unicode_case(rng):
@@ -530,7 +563,7 @@ def tail_case(rng):
         ops.append(dict(mode=rng.choice('aaas'), k=rng.choice('xr'), pats=[], T=rng.choice([0.571, 1.043]), gap=rng.choice([0, 0, 0.2])))
     for op, w in zip(ops, picked):
         op['pats'] = [['s', w] if op['k'] == 'x' else ['re', 's', X.lit(w)]] + ([['E']] if rng.random() < 0.6 else [])
-    return dict(kind=rng.choice(['pty', 'pty', 'fd']), arrivals=arrivals, ops=ops)
+    return dict(kind=rng.choice(['pty', 'pty', 'fd']), arrivals=arrivals, ops=ops, **({'maxread': rng.choice([1, 2, 5])} if rng.random() < 0.4 else {}))
 
 
 def cancel_case(rng):
@@ -633,7 +666,9 @@ def run(ctx):
             with common.guard(60):
                 a = run_object(c, all_sync=False)
             with common.guard(60):
-                b = run_object(c, all_sync=True)
+                # (with small reads the twin is not comparable call by call: a blocking call leaves in the kernel what the event loop has
+                # already taken into the object's buffer.  Those histories are judged by conservation alone, below)
+                b = a if c.get('maxread') else run_object(c, all_sync=True)
         except common.Stuck:
             # a call that sits in a system call for good although its stream has been scripted to the end: with the virtual clock every wait
             # of the code under test goes through the interposed select / poll, so this is a read that nothing announced
@@ -641,6 +676,8 @@ def run(ctx):
             break
         runs.append((a, b))
         d = compare_twin(c, a, b)
+        if c.get('maxread') and d is None:
+            d = conservation(c, a)
         for r in a['recs']:
             hist[r['out'].split()[0]] += 1
         sigs.add((c['kind'], tuple((op['mode'], r['out'].split()[0], min(r['nev'], 3), bool(op.get('gap'))) for op, r in zip(c['ops'], a['recs']))))
@@ -692,6 +729,8 @@ def run(ctx):
                 continue          # an end of stream on a transport left reading: the known finding (b), outside the model
             if c.get('encoding'):
                 continue          # unicode mode: judged against the blocking twin (the codec is outside this model; C07)
+            if c.get('maxread'):
+                continue          # judged by conservation
             if any(r['out'] == 'BLOCKED' for r in a['recs']):
                 continue          # a call without a time limit on a stream that has nothing more to say waits for ever: not a history of the model
             if any(r['out'].startswith('EXC') for r in a['recs']):
